@@ -68,3 +68,22 @@ add("lists",
     ids("require", "if", "exists", "header", "redirect", "stop")
     + strs("a", "b", "@innerq") + [("ml", "m")] + tags(":is"),
     quick=5, thorough=7)
+
+ALL_EXTS = ["fileinto", "reject", "envelope", "body", "vacation", "vacation-seconds", "variables",
+            "date", "imap4flags", "copy", "mailbox", "relational", "regex"]
+SIM = {"name": "sim", "prelude": req(*ALL_EXTS),
+       "vocab": ids("if", "elsif", "else", "stop", "keep", "discard", "redirect", "fileinto", "reject",
+                    "setflag", "addflag", "removeflag", "vacation", "set", "true", "false", "not", "anyof",
+                    "allof", "exists", "size", "header", "address", "envelope", "body", "hasflag", "date",
+                    "currentdate", "require")
+       + tags(":is", ":contains", ":matches", ":count", ":value", ":regex", ":comparator", ":localpart", ":domain",
+              ":all", ":over", ":under", ":copy", ":create", ":flags", ":subject", ":days", ":seconds", ":from",
+              ":addresses", ":handle", ":mime", ":zone", ":originalzone", ":raw", ":content", ":text")
+       + strs("a", "b", "gt", "eq", "i;octet", "i;ascii-casemap", "@innerq", "@nonascii", "@comma", "@brackets", "fileinto")
+       + [("ml", "m"), ("ml", "@dotline"), ("num", "1"), ("num", "20K")] + PUNCT}
+
+SIM_NEST = {"name": "simnest", "prelude": req("fileinto", "envelope", "imap4flags"),
+            "vocab": ids("if", "elsif", "else", "stop", "keep", "fileinto", "true", "false", "not", "anyof",
+                         "allof", "exists", "header", "size", "hasflag", "envelope")
+            + tags(":is", ":over", ":domain", ":comparator") + strs("a", "b", "i;octet") + [("num", "1")] + PUNCT}
+SIMS = {"sim": SIM, "simnest": SIM_NEST}
